@@ -15,6 +15,10 @@ def run(prop, tier, seed_, replay=None):
         from . import x01
 
         return x01.run(tier, seed_)
+    if prop == "X02":
+        from . import x02
+
+        return x02.run(tier, seed_)
     if prop in checks.CORE_PROPS:
         if replay:
             return checks.replay(prop, replay)
